@@ -332,12 +332,15 @@ let check_dup opidx impl_all c now (pkthex : string) =
         | _ -> ()))
 
 (* replies the implementation delivers, remembered for the replay check *)
-let note_replies impl_all =
+let note_replies toks impl_all =
+  (* a reply made while handling a client packet belongs to THAT packet: it is the remembered request's reply only if the
+     packet is the remembered one (a Disconnect/CoA request is answered without touching the cache, whatever its id) *)
+  let cpkt_hex = match toks with "cpkt" :: _ :: _ :: _ :: p :: _ -> Some p | "failat" :: _ :: "cpkt" :: _ :: _ :: _ :: p :: _ -> Some p | _ -> None in
   List.iter (function
       | [ cl; p ] when String.length p >= 4 ->
           let c = int_of_string cl and id = int_of_string ("0x" ^ String.sub p 2 2) in
           (match Hashtbl.find_opt dupcache (c, id) with
-           | Some d when d.d_reply = None -> d.d_reply <- Some p
+           | Some d when d.d_reply = None && (match cpkt_hex with Some q -> q = d.d_pkt | None -> true) -> d.d_reply <- Some p
            | _ -> ())
       | _ -> ()) (impl_events impl_all "reply")
 
@@ -483,7 +486,9 @@ let op_cpkt opidx impl_all toks =
             let rc = match bytes_of_hex p with c0 :: _ -> int_of_n c0 | [] -> -1 in
             let ok = match reqcode with
               | 1 -> List.mem rc [ 2; 3; 11 ] | 4 -> rc = 5 | 12 -> rc = 2 | 40 -> rc = 42 | 43 -> rc = 45 | _ -> false in
-            spec opidx "C08_answer_kind" ok (Printf.sprintf "request code %d answered with code %d" reqcode rc)
+            (* a repeat answered from the cache replays whatever the server had sent: not the proxy's own answer *)
+            if not (Hashtbl.mem impl_prev_replied (c, reqid)) then
+              spec opidx "C08_answer_kind" ok (Printf.sprintf "request code %d answered with code %d" reqcode rc)
           | _ -> ()) (impl_events impl_all "reply");
         List.iter (function [ sv; _; _ ] ->
             (match Hashtbl.find_opt impl_prev_state (int_of_string sv) with
@@ -825,7 +830,7 @@ let run (opidx : int) (impl_all : string list list) (toks : string list) : bool 
     | "failat" :: _ :: inner -> run_failat opidx impl_all inner
     | _ -> run_op opidx impl_all toks in
   if r then begin
-    check_slots opidx impl_all; note_replies impl_all; check_refs opidx impl_all;
+    check_slots opidx impl_all; note_replies toks impl_all; check_refs opidx impl_all;
     (match !st with Some s -> spec opidx "C17_model_refs" (rc_ok s) "reference counts of the model state" | None -> ())
   end;
   remember_impl impl_all; r
